@@ -10,11 +10,16 @@ git -C /repo worktree add -q --detach "$wt" HEAD || exit 2
 trap 'git -C /repo worktree remove --force "$wt" >/dev/null 2>&1' EXIT
 cd "$wt"
 demo=$(ls "$d"/demo* | head -1)
+if [ "${demo##*.}" = sh ]; then
+  mkdir -p out/k && cp "$d"/* out/k/ 2>/dev/null
+  run_demo() { if ROOT="$wt" timeout 900 bash out/k/demo.sh > out/k/demo.out 2>&1; then echo "ok demo.sh exit 0"; else echo "FAIL demo.sh exit $? : $(tail -2 out/k/demo.out | tr '\n' ' ' | cut -c1-200)"; fi; }
+else
 cp "$demo" "$dest/zz_$(basename "$demo")"
 run_demo() { go test -count=1 -run 'Demo|Seed' ./"$dest"/ 2>&1 | tail -3; }
+fi
 echo "--- demo WITHOUT patch:"; run_demo | tail -1
 git apply "$d/patch.diff" || { echo "patch does not apply"; exit 2; }
-go build ./... || { echo "does not compile"; exit 2; }
+go build $(go list ./... | grep -v /out/) || { echo "does not compile"; exit 2; }
 echo "--- demo WITH patch:"; run_demo | tail -1
 rm -f "$dest"/zz_demo*
 echo "--- suite WITH patch:"
